@@ -64,8 +64,8 @@ long __wrap_syscall(long nr, ...) {
 struct file { int peer; char kind; int refs; };
 struct slot { int fd; struct file* f; };
 struct hnd {
-  char kind;                /* 'p' poll, 'r' raw */
-  uv_poll_t poll; uv__io_t raw;
+  char kind;                /* 'p' poll, 'r' raw, 'u' uv_udp_t (owns and closes its descriptor) */
+  uv_poll_t poll; uv__io_t raw; uv_udp_t udp;
   int fd; int closed; int inited;
   int live; int req;        /* harness's own API-level record: started and not stopped, with which mask */
 };
@@ -88,7 +88,7 @@ static int poll2uv(int e) {
 static int uv2poll(int m) {
   return ((m & 1) ? POLLIN : 0) | ((m & 2) ? POLLOUT : 0) | ((m & 4) ? POLLRDHUP : 0) | ((m & 8) ? POLLPRI : 0);
 }
-static uv__io_t* watcher_of(struct hnd* h) { return h->kind == 'p' ? &h->poll.io_watcher : &h->raw; }
+static uv__io_t* watcher_of(struct hnd* h) { return h->kind == 'p' ? &h->poll.io_watcher : h->kind == 'u' ? &h->udp.io_watcher : &h->raw; }
 static int hindex_of_watcher(uv__io_t* w) {
   int i;
   for (i = 0; i < nh; i++) if (H[i]->inited && watcher_of(H[i]) == w) return i;
@@ -192,17 +192,19 @@ static void raw_cb(uv_loop_t* l, uv__io_t* w, unsigned int events) {
   run_beh();
 }
 static void close_cb(uv_handle_t* h) { (void) h; }
+static void udp_alloc_cb(uv_handle_t* h, size_t n, uv_buf_t* b) { static char buf[65536]; (void) h; (void) n; b->base = buf; b->len = sizeof buf; }
+static void udp_recv_cb(uv_udp_t* h, ssize_t n, const uv_buf_t* b, const struct sockaddr* a, unsigned f) { (void) h; (void) n; (void) b; (void) a; (void) f; }
 static void keep_cb(uv_prepare_t* h) { (void) h; }
 
 static int valid(int i) { return i >= 0 && i < nh && H[i]->inited && !H[i]->closed; }
 static int h_busy(struct hnd* h) {
   if (!h->inited || h->closed) return 0;
-  if (h->kind == 'r') return 1;
+  if (h->kind != 'p') return 1;
   return uv_is_active((uv_handle_t*) &h->poll) || h->poll.io_watcher.pevents != 0;
 }
 static int any_busy(int fd) { int i; for (i = 0; i < nh; i++) if (H[i]->fd == fd && h_busy(H[i])) return 1; return 0; }
 static int any_live(int fd) { int i; for (i = 0; i < nh; i++) if (H[i]->fd == fd && H[i]->inited && !H[i]->closed) return 1; return 0; }
-static int any_live_raw(int fd) { int i; for (i = 0; i < nh; i++) if (H[i]->fd == fd && H[i]->inited && !H[i]->closed && H[i]->kind == 'r') return 1; return 0; }
+static int any_live_raw(int fd) { int i; for (i = 0; i < nh; i++) if (H[i]->fd == fd && H[i]->inited && !H[i]->closed && H[i]->kind != 'p') return 1; return 0; }
 static int slot_kind_of_fd(int fd) { int i; for (i = 0; i < MAXS; i++) if (S[i].fd == fd && S[i].f) return S[i].f->kind; return 0; }
 static int fd_exists_in_loop(int fd) { return fd >= 0 && (unsigned) fd < loop.nwatchers && loop.watchers[fd] != NULL; }
 static int fd_is_peer(int fd) { int i; for (i = 0; i < MAXS; i++) if (S[i].fd != -1 && S[i].f && S[i].f->peer == fd) return 1; return 0; }
@@ -248,6 +250,7 @@ static void do_ops(char* ops, int in_cb) {
           if (sv[0] < 0 && sv[1] >= 0) { close(sv[1]); sv[1] = -1; }
           S[a].fd = sv[0]; f->peer = sv[1];
         }
+        else if (k == 'd') { socketpair(AF_UNIX, SOCK_DGRAM | SOCK_NONBLOCK, 0, sv); S[a].fd = sv[0]; f->peer = sv[1]; }
         else if (k == 'p') { pipe2(sv, O_NONBLOCK); fcntl(sv[1], F_SETPIPE_SZ, 4096); S[a].fd = sv[0]; f->peer = sv[1]; }
         else if (k == 'q') { pipe2(sv, O_NONBLOCK); fcntl(sv[1], F_SETPIPE_SZ, 4096); S[a].fd = sv[1]; f->peer = sv[0]; }
         else if (k == 'n') {
@@ -347,7 +350,8 @@ static void do_ops(char* ops, int in_cb) {
           int rc = uv_poll_start(&H[a]->poll, b, poll_cb);
           if (rc == 0) { H[a]->live = (b != 0); H[a]->req = b; }
           printf("s%d,%d=%d ", a, b, rc);
-        } else if (b != 0) { uv__io_start(&loop, &H[a]->raw, uv2poll(b)); printf("s%d,%d=0 ", a, b); }
+        } else if (H[a]->kind == 'u') { uv_udp_recv_start(&H[a]->udp, udp_alloc_cb, udp_recv_cb); printf("s%d,1=0 ", a); }
+        else if (b != 0) { uv__io_start(&loop, &H[a]->raw, uv2poll(b)); printf("s%d,%d=0 ", a, b); }
         else printf("- ");
       } else printf("- ");
       break;
@@ -355,6 +359,7 @@ static void do_ops(char* ops, int in_cb) {
       if (sscanf(tok + 1, "%d,%d", &a, &b) == 2 && valid(a)) {
         b &= 15;
         if (H[a]->kind == 'p') { uv_poll_stop(&H[a]->poll); H[a]->live = 0; printf("t%d,0 ", a); }
+        else if (H[a]->kind == 'u') { uv_udp_recv_stop(&H[a]->udp); printf("t%d,1 ", a); }
         else if (b != 0) { uv__io_stop(&loop, &H[a]->raw, uv2poll(b)); printf("t%d,%d ", a, b); }
         else printf("- ");
       } else printf("- ");
@@ -376,6 +381,30 @@ static void do_ops(char* ops, int in_cb) {
         if (H[a]->kind == 'p') printf("a%d=%d ", a, uv_is_active((uv_handle_t*) &H[a]->poll) ? 1 : 0);
         else printf("a%d=%d ", a, uv__io_active(&H[a]->raw, POLLIN | POLLOUT | UV__POLLRDHUP | UV__POLLPRI) ? 1 : 0);
       } else printf("- ");
+      break;
+    case 'V':
+      /* a uv_udp_t opened on the slot's descriptor: a stream-like watcher that OWNS its descriptor
+       * (uv_close closes it).  In the model: a bare watcher (uv__io_init). */
+      if (sscanf(tok + 1, "%d", &a) == 1 && a >= 0 && a < MAXS && S[a].fd != -1 && nh < MAXH && !any_live(S[a].fd)) {
+        int fd = S[a].fd; struct hnd* h = new_handle('u', fd); int rc;
+        uv_udp_init(&loop, &h->udp);
+        rc = uv_udp_open(&h->udp, fd);
+        h->inited = 1;
+        printf("j%d=%d@%d ", nh - 1, rc, fd);
+      } else printf("- ");
+      break;
+    case 'Q':
+      /* uv_close of the uv_udp_t: uv__udp_close = uv__io_close + close(fd).  Model: OClose; OCloseFd */
+      if (sscanf(tok + 1, "%d,%d", &a, &b) == 2 && valid(a) && H[a]->kind == 'u' && b >= 0 && b < MAXS && S[b].fd == H[a]->fd) {
+        int fd = H[a]->fd;
+        uv_close((uv_handle_t*) &H[a]->udp, close_cb);
+        H[a]->closed = 1; H[a]->live = 0;
+        printf("z%d x%d ", a, fd);
+        if (fd <= 2) { close(fd); dup2(g_nullfd, fd); }      /* libuv leaves stdio numbers open */
+        S[b].fd = -1;
+        if (--S[b].f->refs == 0) { if (S[b].f->peer != -1) close(S[b].f->peer); free(S[b].f); }
+        S[b].f = NULL;
+      } else printf("- - ");
       break;
     case 'Y':
       /* a fresh handle of another kind opened on the descriptor: must be refused (UV_EEXIST)
